@@ -134,6 +134,13 @@ func c12Forms(sc *c07Schema) []c12Form {
 		{"builtin-changetype-null", "CHANGETYPE(" + r("nokey") + ", 'string')", "any"},
 		{"builtin-array-null", "ARRAY(NULL, " + r("nokey") + ", " + r(items) + ")", "any"},
 		{"builtin-if-null", "IF(" + r("nokey") + " IS NULL, NULL, 1)", "any"},
+		// bracket selectors over the per-row array (0-3 elements, so the same selector meets arrays of different lengths)
+		{"selector-range-to-end", r("`" + items + "[(0:end)]`"), "any"},
+		{"selector-range-from-1", r("`" + items + "[(1:end)]`"), "any"},
+		{"selector-range-begin", r("`" + items + "[(begin:1)]`"), "any"},
+		{"selector-range-fixed", r("`" + items + "[(0:2)]`"), "any"},
+		{"selector-each-key", r("`" + items + "[each]." + p + "`"), "any"},
+		{"selector-continued", r("`" + items + "::" + p + "`"), "any"},
 		{"user-function", "vf_id(" + r(v) + ")", "num"},
 		{"nested-function", "vf_mul(vf_id(" + r(k) + "), 3)", "num"},
 		{"subquery", "(SELECT " + p + " FROM " + r(items) + ")", "any"},
@@ -378,7 +385,7 @@ func init() {
 	Register(&Prop{
 		ID:    "C12",
 		Title: "Results are plain self-contained data and evaluation is deterministic",
-		Rule: "rapid draws a document and (2/3) one of 64 expression forms (columns, literals of every kind, arithmetic, unary, comparisons, IN, BETWEEN, LIKE, " +
+		Rule: "rapid draws a document and (2/3) one of 70 expression forms (columns, bracket and continued selectors over per-row arrays of different lengths, literals of every kind, arithmetic, unary, comparisons, IN, BETWEEN, LIKE, " +
 			"IS, NOT, AND/OR, CASE with and without ELSE, built-in and user function calls, nested calls, subqueries, ASYNC / ONCE / SPIN / SPINASYNC " +
 			"calls, SETVAR/GETVAR, FUSE, CONSTANT, 14 built-ins with NULL / missing arguments) placed in one of 22 positions (select item aliased/unaliased, function argument, array element, " +
 			"CASE branch/else/condition, IN list, WHERE, subquery select list, grouped select list, HAVING, joined select list, CTE and derived-table " +
